@@ -12,10 +12,11 @@ from harness.monitors.driver import _spec, _out
 RT, AT = 1e-7, 1e-9  # rounding allowance for "equal up to rounding" comparisons (reported in the evidence)
 
 
-def close(a, b, scale=1.0):
+def close(a, b, scale=1.0, rt=None):
     a = np.asarray(a, float)
     b = np.asarray(b, float)
-    return a.shape == b.shape and bool(np.all(np.abs(a - b) <= AT * scale + RT * np.maximum(np.abs(a), np.abs(b))))
+    rt = RT if rt is None else rt
+    return a.shape == b.shape and bool(np.all(np.abs(a - b) <= AT * scale + rt * np.maximum(np.abs(a), np.abs(b))))
 
 
 def macroscopic(x_from, x_to, scale):
@@ -189,6 +190,27 @@ def eval_C07(case):
                 else:
                     fail = f"restart from callback state {k}: next iterate differs ({float(np.max(np.abs(c.x - nxt.x))):.3e}) [memory newest entry != x]"
                     break
+    # same continuation, one iteration further: the iterate after the next one.  (A restart taken right after a
+    # curvature-rejected update cannot reproduce it: the checkpoint stores differences of STORED points and cannot say that
+    # the newest stored point is not the current iterate - reported under its own signature, see known_findings.json.)
+    if fail is None and case["spec"]["family"] in SMOOTH and mode == "callable":
+        for i, (s, sc, xk, nf, ng) in enumerate(R.snaps[:-2]):
+            k = sc.nit
+            n1, n2 = R.snaps[i + 1][1], R.snaps[i + 2][1]
+            if n1.nit != k + 1 or n2.nit != k + 2 or not (macroscopic(sc.x, n1.x, scale) and macroscopic(n1.x, n2.x, scale)):
+                continue
+            try:
+                c2 = _solve(P, x0=sc.x, checkpoint=copy.deepcopy(sc), **dict(cfg, maxiter=k + 2))
+            except Exception as e:  # noqa
+                fail = f"restart from callback state {k} raised {type(e).__name__}: {e}"
+                break
+            if c2.nit == n2.nit and not close(c2.x, n2.x, scale, rt=1e-5):
+                sk = pairs_of(sc)[0]
+                prev = R.snaps[i - 1][1].x if i >= 1 else np.clip(P.x0, P.lb, P.ub)
+                acc = (sk.shape[0] > 0 and beq(sk[-1], sc.x - prev)) or beq(sc.x, prev)
+                fail = (f"restart from callback state {k}: the iterate two iterations later differs from the uninterrupted run by "
+                        f"{float(np.max(np.abs(c2.x - n2.x))):.3e}" + ("" if acc else " [memory newest entry != x]"))
+                break
     sig = "C07 " + (fail or "")[:25] + (" memory-newest-entry-not-x" if fail and "[memory newest" in fail else "")
     return _out(fail, key=case["spec"]["pseed"], nontrivial=ksnap >= 2, sample=dict(case=case, snapshots=ksnap),
                 signature=sig, family=case["spec"]["family"], snapshots=min(ksnap, 13))
@@ -199,7 +221,7 @@ def gen_C17(tier, rng):
     N = 300 if tier == "quick" else 5000
     for i in range(N):
         yield dict(spec=_spec(rng, gen.ALL, nmax=8), cfg=gen.random_config(rng), u=float(rng.uniform(-3, 3)),
-                   packaged=bool(rng.random() < 0.2), target=bool(rng.random() < 0.3))
+                   packaged=bool(rng.random() < 0.2), target=bool(rng.random() < 0.3), upd=bool(rng.random() < 0.35))
 
 
 def eval_C17(case):
@@ -250,7 +272,11 @@ def eval_C17(case):
     if fail is None and case["target"]:
         f0 = float(P.f(xs))
         T = f0 - 0.3 * abs(f0) - 0.05
-        C = run_instrumented(P, cfg, extra=dict(gradient_scaler=scaler, ftarget=T))
+        extra_c = dict(gradient_scaler=scaler, ftarget=T)
+        if case.get("upd"):
+            # the target test must be on the unscaled value on the update-function path too
+            extra_c["update_fun_def"] = lambda x, f0_, f0o, g, X, G: (f0_, f0o, g, G)
+        C = run_instrumented(P, cfg, extra=extra_c)
         if C.exc is not None:
             fail = f"run with target raised {C.exc!r}"
         else:
